@@ -1,6 +1,150 @@
-From GS Require Import Base.Bytes Model.Series Proofs.Series.
-Local Open Scope N_scope.
+(* C06 — Shard routing is a deterministic partition of series.
 
-Theorem C06_bucket_range : forall name key n, n <> 0 -> bucket name key n < n.
+   "For every batch and every shard count, splitting the batch assigns each series (name, tag
+   set, source) to exactly one shard, chosen only by the series identity and the shard count,
+   and the shards' contents together equal the batch.  Hence a series is always aggregated by
+   the same shard and is reported at most once per flush."
+
+   Model: Model/Series.v (tags_key = FormatTagsKey, adler32, bucket = Bucket) and
+   Model/MetricMap.v (mmap = the four typed maps keyed by skey = (name, tags key); split n m =
+   MetricMap.Split(n), a list of n maps; merge_maps = MergeMaps; receive = Receive).
+   All theorems are over every map m (all four types, arbitrary byte strings incl. empty) and
+   every shard count n >= 1 (n = 0 divides by zero in Go; see C06_split_loop_zero_panics).
+   [l !! i] on a list is the partial lookup (None outside the list).  Vocabulary, fixed by the
+   three *_def theorems below:  shard_index n k (the shard of series k among n),  series_in m k
+   (m holds series k under some type),  cells m k (the four typed entries of k in m). *)
+From stdpp Require Import gmap.
+From GS Require Import Base.Bytes Model.Lexer Model.Series Model.MetricMap.
+From GS Require Import Proofs.Series Proofs.MetricMapSplit.
+
+Theorem C06_shard_index_def : forall (n : nat) (k : skey),
+  shard_index n k = N.to_nat (bucket (fst k) (snd k) (N.of_nat n)).
+Proof. exact shard_index_unfold. Qed.
+Print Assumptions C06_shard_index_def.
+
+Theorem C06_series_in_def : forall (m : mmap) (k : skey),
+  series_in m k <->
+  is_Some (counters m !! k) \/ is_Some (timers m !! k) \/ is_Some (gauges m !! k) \/ is_Some (sets m !! k).
+Proof. exact series_in_unfold. Qed.
+Print Assumptions C06_series_in_def.
+
+Theorem C06_cells_def : forall (m : mmap) (k : skey),
+  cells m k = (counters m !! k, timers m !! k, gauges m !! k, sets m !! k).
+Proof. exact cells_unfold. Qed.
+Print Assumptions C06_cells_def.
+
+(* ---- the routing function ---- *)
+
+Theorem C06_bucket_range : forall name key n, (n <> 0)%N -> (bucket name key n < n)%N.
 Proof. exact bucket_range. Qed.
 Print Assumptions C06_bucket_range.
+
+(* The shard that holds a datapoint after Receive + Split is N.to_nat (bucket name key n): an
+   expression in the datapoint's name, its tags key and the shard count only — type, value,
+   rate, timestamp and the rest of the batch m do not occur in it. *)
+Theorem C06_datapoint_shard : forall (n : nat) (m : mmap) (d : datapoint) (i : nat) (s : mmap),
+  split n (receive m d) !! i = Some s ->
+  (series_in s (dp_name d, tags_key (dp_src d) (dp_tags d))
+   <-> i = N.to_nat (bucket (dp_name d) (tags_key (dp_src d) (dp_tags d)) (N.of_nat n))).
+Proof. exact datapoint_shard. Qed.
+Print Assumptions C06_datapoint_shard.
+
+(* Two datapoints of the same series identity — same name, same source, same tags in any
+   order — are routed to the same shard, whatever else differs (type, value, rate, timestamp,
+   the batches m1 m2 they arrive in). *)
+Theorem C06_bucket_deterministic :
+  forall (n : nat) (m1 m2 : mmap) (d1 d2 : datapoint) (i1 i2 : nat) (s1 s2 : mmap),
+    dp_name d1 = dp_name d2 -> dp_src d1 = dp_src d2 -> Permutation (dp_tags d1) (dp_tags d2) ->
+    split n (receive m1 d1) !! i1 = Some s1 -> split n (receive m2 d2) !! i2 = Some s2 ->
+    series_in s1 (dp_key d1) -> series_in s2 (dp_key d2) -> i1 = i2.
+Proof. exact datapoint_routing_deterministic. Qed.
+Print Assumptions C06_bucket_deterministic.
+
+(* ---- series identity and the tags key ---- *)
+
+(* the key does not depend on the order of the tags *)
+Theorem C06_tags_key_order_invariant : forall (src : str) (tags tags' : list str),
+  Permutation tags tags' -> tags_key src tags = tags_key src tags'.
+Proof. exact tags_key_perm. Qed.
+Print Assumptions C06_tags_key_order_invariant.
+
+(* On plain identities (plain_tag: non-empty, no comma, not starting with s-colon; no_comma
+   sources) the key identifies exactly (source, multiset of tags).  Outside that domain distinct
+   pairs can share a key - tags [a; s:x] without source and tags [a] with source x - and are
+   one series for gostatsd by design (Proofs/Series.v, Examples tags_key_collision_source,
+   _comma, _empty). *)
+Theorem C06_tags_key_identity : forall (src src' : str) (tags tags' : list str),
+  Forall plain_tag tags -> Forall plain_tag tags' -> no_comma src -> no_comma src' ->
+  (tags_key src tags = tags_key src' tags' <-> src = src' /\ Permutation tags tags').
+Proof. exact tags_key_identity. Qed.
+Print Assumptions C06_tags_key_identity.
+
+(* ---- Split is a partition ---- *)
+
+Theorem C06_split_length : forall (n : nat) (m : mmap), length (split n m) = n.
+Proof. exact split_length. Qed.
+Print Assumptions C06_split_length.
+
+(* Shard i holds, for each of the four metric types, exactly the entries of m whose bucket is i,
+   with the value found in m. *)
+Theorem C06_split_lookup : forall (n : nat) (m : mmap) (i : nat) (k : skey),
+  (i < n)%nat ->
+  exists s, split n m !! i = Some s /\
+    let here := bool_decide (N.to_nat (bucket (fst k) (snd k) (N.of_nat n)) = i) in
+    counters s !! k = (if here then counters m !! k else None) /\
+    timers s !! k = (if here then timers m !! k else None) /\
+    gauges s !! k = (if here then gauges m !! k else None) /\
+    sets s !! k = (if here then sets m !! k else None).
+Proof. exact split_lookup_explicit. Qed.
+Print Assumptions C06_split_lookup.
+
+(* Every series of shard i came from m and has shard index i (used by C01). *)
+Theorem C06_shard_keys : forall (n : nat) (m : mmap) (i : nat) (s : mmap) (k : skey),
+  split n m !! i = Some s -> (series_in s k <-> series_in m k /\ shard_index n k = i).
+Proof. exact split_series_in. Qed.
+Print Assumptions C06_shard_keys.
+
+(* The shards' contents together equal the batch: merging them with MergeMaps, in any order,
+   gives back m — every counter value, timer value list and sampled count, gauge, set,
+   timestamp, source and tag list untouched (Leibniz equality of the records). *)
+Theorem C06_split_union : forall (n : nat) (m : mmap) (l : list mmap),
+  n <> 0%nat -> Permutation l (split n m) -> merge_maps l = m.
+Proof. exact merge_maps_split_perm. Qed.
+Print Assumptions C06_split_union.
+
+(* Exactly one shard: a series of m is in the shard of its index, with all its typed entries
+   unchanged, and in no other shard. *)
+Theorem C06_split_disjoint : forall (n : nat) (m : mmap) (k : skey),
+  n <> 0%nat -> series_in m k ->
+  exists s, split n m !! shard_index n k = Some s /\ cells s k = cells m k /\
+    forall j s', split n m !! j = Some s' -> series_in s' k -> j = shard_index n k.
+Proof. exact split_exactly_one. Qed.
+Print Assumptions C06_split_disjoint.
+
+(* The same series in two batches is routed to the same shard index. *)
+Theorem C06_stable_across_batches :
+  forall (n : nat) (m1 m2 : mmap) (i1 i2 : nat) (s1 s2 : mmap) (k : skey),
+    split n m1 !! i1 = Some s1 -> split n m2 !! i2 = Some s2 ->
+    series_in s1 k -> series_in s2 k -> i1 = i2.
+Proof. exact split_stable. Qed.
+Print Assumptions C06_stable_across_batches.
+
+(* ---- the loop the Go code runs ---- *)
+
+(* Split as written in metric_map.go: four loops over the typed maps in Go's unspecified
+   iteration order, each entry stored into maps[Bucket(name, key, n)] (an index outside the
+   slice would be a panic = None).  For every iteration order the loop yields [split n m]. *)
+Theorem C06_split_loop_any_order :
+  forall (n : nat) (m : mmap) (ec : list (skey * counter)) (et : list (skey * timer))
+         (eg : list (skey * gauge)) (es : list (skey * mset)),
+    n <> 0%nat ->
+    Permutation ec (map_to_list (counters m)) -> Permutation et (map_to_list (timers m)) ->
+    Permutation eg (map_to_list (gauges m)) -> Permutation es (map_to_list (sets m)) ->
+    split_loop n ec et eg es = Some (split n m).
+Proof. exact split_loop_any_order. Qed.
+Print Assumptions C06_split_loop_any_order.
+
+Theorem C06_split_loop_zero_panics : forall (V : Type) (kv : skey * V) (es : list (skey * V)),
+  gsplit_loop 0 (kv :: es) = None.
+Proof. exact @gsplit_loop_zero. Qed.
+Print Assumptions C06_split_loop_zero_panics.
